@@ -110,6 +110,18 @@ Theorem C17_badger_ttl_not_young : forall now s y,
 Proof. exact badger_advance_old. Qed.
 Print Assumptions C17_badger_ttl_not_young.
 
+(* C17_whole on the engine-TTL path (Badger as modelled): a creation writes its index record and its version record
+   with the same ttl - in each of the creator's batches: put-if-absent, re-create after Get, compare-and-swap over a
+   tombstoned index (the ttl arguments are observed by the driver's ttl-choice cases, fresh and re-created) - so
+   once the ttl has passed neither is left, whatever was stored before *)
+Theorem C17_whole_engine_ttl : forall t ttl k rev v s now,
+  ttl <> 0 -> t + ttl <= now ->
+  let s' := put_ent EBadger t ttl (RVer k rev v) (put_ent EBadger t ttl (RIdx k rev false) s) in
+  ~ In (RIdx k rev false) (map t_rec (ts_store (advance EBadger now s'))) /\
+  ~ In (RVer k rev v) (map t_rec (ts_store (advance EBadger now s'))).
+Proof. exact badger_create_whole. Qed.
+Print Assumptions C17_whole_engine_ttl.
+
 (* memkv: the timer of the create removes an index written 1.5 s ago under a 2 s TTL (finding C17-F2) *)
 Theorem C17_memkv_ttl_refuted :
   let s1 := put_ent EMem 0 2000 (RIdx k_event 5 false) (mkTS [] []) in
@@ -194,3 +206,19 @@ Proof.
          | H : RVer _ _ _ = RIdx _ _ _ |- _ => discriminate H
          end; cbv in H1, H2; split; congruence.
 Qed.
+
+(* create, delete, create of an Event with no compaction in between, left alone past the TTL, on Badger: index and
+   versions of the re-creation expire together (the tombstone, written without a TTL, stays); the key reads absent
+   and Create succeeds. Had the index been swapped in over the tombstone with ttl 0 it would stay for good: the key
+   would read absent and refuse every Create *)
+Example C17_ex_recreate_expires :
+  let evs := [TCreate 0 k_event [1] 5; TDelete 150 k_event 6; TCreate 300 k_event [2] 7] in
+  let run := fun dumpt => ttl_run EBadger pfx 2000 (mkTS [] []) (evs ++ [TDump dumpt []]) in
+  ttl_run EBadger pfx 2000 (mkTS [] []) (evs ++ [TDump 2900 [RVer k_event 6 tombstone]]) = Some [RVer k_event 6 tombstone] /\
+  get_at [RVer k_event 6 tombstone] max_rev k_event = None /\ snd (do_create [RVer k_event 6 tombstone] k_event [3] 8) = WOk /\
+  (* the defective variant: index with ttl 0 *)
+  let bad := advance EBadger 2900 (put_ent EBadger 300 2000 (RVer k_event 7 [2]) (put_ent EBadger 300 0 (RIdx k_event 7 false)
+               (put_ent EBadger 150 0 (RVer k_event 6 tombstone) (mkTS [] [])))) in
+  let Vbad := sort_by rec_ltb (map t_rec (ts_store bad)) in
+  get_at Vbad max_rev k_event = None /\ snd (do_create Vbad k_event [3] 8) = WFalse.
+Proof. vm_compute. repeat split. Qed.
